@@ -623,6 +623,12 @@ func TestPlaintextAgainstTLSEndpoint(t *testing.T) {
 		cfg := vlib.PairConfig{Carrier: carrier, ServerCert: &kp, ClientInsecure: true,
 			Channels:  []vlib.ChannelSpec{{Name: "data", Target: tgt.URL()}},
 			Listeners: []vlib.ListenerSpec{{Channel: "data"}}}
+		// a TLS endpoint whose certificate is missing from the configuration may refuse to start or refuse every
+		// peer; it may not serve in clear
+		noCert := rapid.IntRange(0, 3).Draw(rt, "noCertificate") == 0
+		if noCert {
+			cfg.ServerCert = nil
+		}
 		var reply []byte
 		if carrier == vlib.CarStdioTLS {
 			// standard-stream endpoint: the harness is the peer on the pipes; build the server only
@@ -632,6 +638,10 @@ func TestPlaintextAgainstTLSEndpoint(t *testing.T) {
 			if err != nil {
 				if vlib.IsBindError(err) {
 					vlib.Rec.Inconclusive("bind")
+					return
+				}
+				if noCert {
+					vlib.Rec.Case(fmt.Sprintf("exp3 %s no-certificate refused to start", carrier), true, []string{"exp3", "carrier:" + carrier, "no-certificate", "refused-to-start"}, func() interface{} { return map[string]interface{}{"carrier": carrier, "no_certificate": true, "start_error": err.Error()} })
 					return
 				}
 				rt.Fatalf("pair start: %v", err)
@@ -646,8 +656,8 @@ func TestPlaintextAgainstTLSEndpoint(t *testing.T) {
 			reply, _ = io.ReadAll(c)
 			c.Close()
 		}
-		desc := map[string]interface{}{"carrier": carrier, "prefix_kind": kind, "prefix": vlib.Hex(prefix)}
-		vlib.Rec.Case(fmt.Sprintf("exp3 %s %x", carrier, prefix), true, []string{"exp3", "carrier:" + carrier, fmt.Sprintf("prefix:%d", kind)}, func() interface{} { return desc })
+		desc := map[string]interface{}{"carrier": carrier, "prefix_kind": kind, "prefix": vlib.Hex(prefix), "no_certificate": noCert}
+		vlib.Rec.Case(fmt.Sprintf("exp3 %s %x %v", carrier, prefix, noCert), true, []string{"exp3", "carrier:" + carrier, fmt.Sprintf("prefix:%d", kind), fmt.Sprintf("no-certificate:%v", noCert)}, func() interface{} { return desc })
 		fail := func(msg string) {
 			vlib.Rec.Violation(map[string]interface{}{"property": "C04", "experiment": 3, "case": desc, "problem": msg, "reply": vlib.Hex(reply)})
 			rt.Fatalf("C04 exp3 %v: %s (reply %q)", desc, msg, string(reply))
